@@ -272,6 +272,34 @@ theorem snap_defaults (p : Grid K) (r : List (Grid K)) (s e : K) (n : Nat) :
            r.foldl (fun m q => if m < q.numSteps then q.numSteps else m) p.numSteps) ∧
     snapParams ([] : List (Grid K)) none (some e) (some n) = .error .emptyList := ⟨rfl, rfl, rfl⟩
 
+/-- **snap_succeeds**: `snap_pl` succeeds on well-formed landscapes whenever the target grid has at
+    least one node and `start ≤ stop` (the constructor's own check) … -/
+theorem snap_succeeds (ls : List (Grid K)) (s? e? : Option K) (n? : Option Nat) (S E : K) (N : Nat)
+    (hw : ∀ p ∈ ls, p.wf = true) (hp : snapParams ls s? e? n? = .ok (S, E, N)) (hN : 0 < N) (hSE : S ≤ E) :
+    ∃ ps, snapPl ls s? e? n? = .ok ps := by
+  refine ⟨ls.map fun p => ⟨p.homDeg, S, E, N, p.values.map fun row => (linspace S E N).map fun x =>
+    interp x ((linspace p.start p.stop p.numSteps).zip row)⟩, ?_⟩
+  unfold snapPl
+  rw [hp]
+  show ls.mapM (snapOne S E N) = _
+  apply mapM_ok_of_forall
+  intro p hpm
+  have w := (gridwf_iff p).mp (hw p hpm)
+  unfold snapOne
+  exact Grid.mk'_ok _ _ _ _ _ (by simpa using w.ne) hN (by
+    intro r hr
+    obtain ⟨r', _, rfl⟩ := List.mem_map.mp hr
+    simp [length_linspace]) hSE
+
+/-- … which is always the case with the default parameters (smallest start, largest stop, largest
+    num_steps) on a non-empty list of well-formed landscapes. -/
+theorem snap_defaults_succeed (p : Grid K) (r : List (Grid K)) (hw : ∀ q ∈ p :: r, q.wf = true) :
+    ∃ ps, snapPl (p :: r) none none none = .ok ps := by
+  have w := (gridwf_iff p).mp (hw p (by simp))
+  refine snap_succeeds (p :: r) none none none _ _ _ hw (snap_defaults p r 0 0 0).2.1 ?_ ?_
+  · exact lt_of_lt_of_le w.pos (le_foldMax r _)
+  · exact le_trans (minOf_le _ _) (le_trans w.le (le_maxOf _ _))
+
 /-- **interp is linear interpolation with constant extension**: for strictly increasing nodes,
     left of the first node the first value, from the last node on the last value, in between the
     piecewise-linear interpolant `evalPL` of the nodes. -/
